@@ -1068,7 +1068,7 @@ class PX:
     def call(self, st, fid, fn, t, depth, bi):
         name = t['r'] or t['f']
         args = [self.operand(st, fid, fn, a) for a in t['args']]
-        ev = ('call', name, tuple(args), t['sp'], fn, bi, t['f'], t['ga'], t.get('exp', False))
+        ev = ('call', name, tuple(args), t['sp'], fn, bi, t['f'], t['ga'], t.get('exp', False), tuple(self.shared_ref_operand(t, i) for i in range(len(args))))
         # repository body available?
         target = self.resolve(name, t, args)
         if target is not None and target in self.p.bodies and target not in self.opaque and self.inline \
@@ -1088,7 +1088,9 @@ class PX:
             return res
         st.events.append(ev)
         self.cur_site = (fn, bi)
-        r = self.models.call(self, st, name, t, args, fid, fn)
+        # the std / tinystr summaries are keyed by path suffixes: they must never be applied to a repository function that happens to be
+        # called `sort`, `len`, `clear` ... (such a function is explored inline or kept opaque, its name means nothing)
+        r = self.models.call(self, st, name, t, args, fid, fn) if not (target is not None and target in self.p.bodies) else None
         if r is not None:
             return r
         if target is not None and target in self.p.bodies:
